@@ -22,7 +22,8 @@ def dt_of(us):
     return EPOCH + timedelta(microseconds=us)
 
 
-ZONES = [None, timezone(timedelta(hours=5, minutes=30)), timezone(timedelta(hours=-8)), None, timezone(timedelta(hours=14))]
+ZONES = [None, timezone(timedelta(hours=5, minutes=30)), timezone(timedelta(hours=-8)), "Europe/London", timezone(timedelta(hours=14))]
+# "Europe/London": a tz-database zone whose offset is ZERO in winter without being UTC (arithmetic on such a datetime follows the wall clock)
 
 
 def _fold_instants():
@@ -50,13 +51,17 @@ def zoned_dt(us):
         return dt_of(us).astimezone(ZoneInfo(FOLD_ZONE[us]))
     z = ZONES[(us // 1000000) % len(ZONES)]
     d = dt_of(us)
+    if isinstance(z, str):
+        from zoneinfo import ZoneInfo
+        z = ZoneInfo(z)
     return d if z is None else d.astimezone(z)
 
 
 def us_of(dt):
     if not isinstance(dt, datetime):
         return BAD_TIME + 1
-    if dt.tzinfo is None or dt.utcoffset() != timedelta(0):
+    # "a timezone-aware UTC datetime": the fixed zone UTC, not a zone that merely has offset zero on that day
+    if dt.tzinfo is None or dt.utcoffset() != timedelta(0) or not isinstance(dt.tzinfo, timezone):
         return BAD_TIME + ((dt.replace(tzinfo=timezone.utc) - EPOCH) // timedelta(microseconds=1)) % (1 << 60)
     return (dt - EPOCH) // timedelta(microseconds=1)
 
